@@ -333,7 +333,9 @@ func (priv *PrivateKey) inverseOfPrivateKeyPlus1(c *sm2Curve) (*bigmod.Nat, erro
 			}
 		}
 	})
-	if err != nil {
+	// err is only set on the call that ran the initialisation; a nil cached
+	// value means an earlier call already found the key invalid.
+	if err != nil || priv.inverseOfKeyPlus1 == nil {
 		return nil, errInvalidPrivateKey
 	}
 	return priv.inverseOfKeyPlus1, nil
